@@ -32,9 +32,10 @@ P = {
  "C08": ("theorems: same length/structure, same evaluation function, fake record = (tape masking key, zero envelope, fake key), fields from fresh tape ranges, "
          "no other finalization accepted; battery incl. fake-state freshness",
          "client InvalidLogin on a fake response rests on a BadGuess event; validated by the battery"),
- "C09": ("byte-exact differential run model vs crate (raw) + RFC 9807 vectors from the repository replayed through both sides; label constants regenerated "
-         "from /repo/src and proved equal to the RFC strings",
-         "the model is my transcription of the RFCs, anchored by the embedded vectors; RFC-shaped Spec refinement is partial"),
+ "C09": ("byte-exact differential run model vs crate (a byte difference is itself the counterexample) + the nine RFC 9807 vectors of the repository replayed through "
+         "both sides; theorems: labels regenerated from /repo/src equal the RFC's, and the model computes the RFC-shaped functions of Spec/Rfc.v (Expand-Label / "
+         "CustomLabel, Preamble, DeriveKeys, CleartextCredentials, OPRF Finalize and DeriveKeyPair, ServerFinish)",
+         "Spec/Rfc.v is my transcription of the RFC pseudocode (no network), anchored by the embedded vectors"),
  "C10": ("theorems: all eleven decoders strict for all 20 suites (unconditional), fixed lengths, round trip on well-formed values; decode battery",
          "none beyond the common trusted base"),
  "C11": ("theorems: decoders build elements/scalars/keys only through validators; NIST decoder results are reduced on-curve points, X25519 keys are not of small "
